@@ -45,85 +45,89 @@ func (vc *VC) stringConcat(st *State, x, y *SV, rt types.Type) *SV {
 
 // ------------------------------------------------------------------ maps
 //
-// A map object m (a Ref) is modelled by per-(key sort, value sort) ghost
-// arrays declared on demand:  Mdom_<K> : Ref -> (K -> Bool),
-// Mval_<K>_<V>_<i> : Ref -> (K -> V) for each component i of the value.
-// Only scalar keys are supported; other maps are opaque (lookups return
-// arbitrary values, updates are forgotten).
+// A map object m (a Ref) with a 32- or 64-bit scalar key and a one-component
+// scalar value (bool, 32- or 64-bit integer) is modelled by two state
+// components: a domain  Md<K> : Ref -> (K -> Bool)  and a value map
+// Mv<K>_<V> : Ref -> (K -> V). Other maps are opaque (lookups return
+// arbitrary values, updates are forgotten; noted as an assumption).
 
-func mapKeySort(t types.Type) (Sort, bool) {
-	m := t.Underlying().(*types.Map)
-	l := layout(m.Key())
-	if len(l) == 1 && l[0] != SBool {
-		return l[0], true
-	}
-	return 0, false
+type mapShape struct {
+	ok       bool
+	kbits    int
+	vsort    Sort
+	dom, val string // state keys
 }
 
-func (vc *VC) mapState(st *State, name, sort string) string {
-	if _, ok := st.H[name]; !ok {
-		// declared lazily: the entry value is a fresh constant shared by the VC
-		key := "mapstate:" + name
-		if !vc.eng.declared(vc, key) {
-			vc.emit(fmt.Sprintf("(declare-const %s!0 %s)", name, sort))
-		}
-		return name + "!0"
-	}
-	return st.H[name]
-}
-
-func mapDomName(k Sort) string { return fmt.Sprintf("Mdom_%d", k.Bits()) }
-func mapDomSort(k Sort) string {
-	return fmt.Sprintf("(Array (_ BitVec 32) (Array %s Bool))", k)
-}
-func mapValName(k, v Sort, i int) string {
-	vb := "b"
-	if v != SBool {
-		vb = fmt.Sprint(v.Bits())
-		if v == SRef {
-			vb = "r"
-		}
-		if v == STid {
-			vb = "t"
+func mapKeys() map[string]string {
+	out := map[string]string{}
+	for _, k := range []int{32, 64} {
+		ks := bvSort(k).String()
+		out[fmt.Sprintf("Md%d", k)] = fmt.Sprintf("(Array (_ BitVec 32) (Array %s Bool))", ks)
+		for _, v := range []Sort{SBool, SBV32, SBV64} {
+			out[fmt.Sprintf("Mv%d_%s", k, vtag(v))] = fmt.Sprintf("(Array (_ BitVec 32) (Array %s %s))", ks, v)
 		}
 	}
-	return fmt.Sprintf("Mval_%d_%s_%d", k.Bits(), vb, i)
-}
-func mapValSort(k, v Sort) string {
-	return fmt.Sprintf("(Array (_ BitVec 32) (Array %s %s))", k, v)
+	return out
 }
 
-func (vc *VC) mapInit(st *State, ref string) {
-	// a fresh map is empty for every key sort that is ever used with it; since
-	// refs are fresh, we record emptiness lazily at first use through Mfresh.
-	st.H["Mfresh:"+ref] = "true"
+func vtag(v Sort) string {
+	if v == SBool {
+		return "b"
+	}
+	return fmt.Sprint(v.Bits())
+}
+
+func shapeOf(t types.Type) mapShape {
+	m, ok := t.Underlying().(*types.Map)
+	if !ok {
+		return mapShape{}
+	}
+	kl, vl := layout(m.Key()), layout(m.Elem())
+	if len(kl) != 1 || len(vl) != 1 {
+		return mapShape{}
+	}
+	kb := kl[0].Bits()
+	if kl[0] == SBool || (kb != 32 && kb != 64) || kl[0] == SRef {
+		return mapShape{}
+	}
+	v := vl[0]
+	if v != SBool && v != SBV32 && v != SBV64 {
+		return mapShape{}
+	}
+	return mapShape{ok: true, kbits: kb, vsort: v, dom: fmt.Sprintf("Md%d", kb), val: fmt.Sprintf("Mv%d_%s", kb, vtag(v))}
+}
+
+func (vc *VC) mapInit(st *State, ref string, t types.Type) {
+	sh := shapeOf(t)
+	if !sh.ok {
+		return
+	}
+	empty := fmt.Sprintf("((as const (Array %s Bool)) false)", bvSort(sh.kbits))
+	st.H[sh.dom] = vc.def(stateSorts[sh.dom], sto(st.H[sh.dom], ref, empty), sh.dom)
+}
+
+// mapGet returns (present, value) of m[k] in state st without side effects.
+func mapGet(st *State, sh mapShape, m, k string) (string, string) {
+	present := sel2(st.H[sh.dom], m, k)
+	return present, ite(present, sel2(st.H[sh.val], m, k), zeroOf(sh.vsort))
 }
 
 func (vc *VC) mapLookup(f *Frame, n *Node, in *ssa.Lookup, m *SV) *SV {
 	st := n.St
 	mt := in.X.Type().Underlying().(*types.Map)
-	ks, ok := mapKeySort(in.X.Type())
+	sh := shapeOf(in.X.Type())
 	vt := mt.Elem()
 	var val *SV
 	var present string
-	if !ok {
-		vc.note("map with non-scalar key " + in.X.Type().String() + ": lookups return arbitrary values")
+	if !sh.ok {
+		vc.note("map of shape " + in.X.Type().String() + " is opaque: lookups return arbitrary values")
 		val = vc.freshSV(vt, "mapv", st)
 		present = vc.freshS(SBool, "mapok")
 	} else {
 		key := f.get(in.Index, n).C[0]
-		dom := vc.mapState(st, mapDomName(ks), mapDomSort(ks))
-		present = vc.def("Bool", sel(sel(dom, m.C[0]), key), "mapok")
-		l := layout(vt)
-		val = &SV{T: vt, C: make([]string, len(l))}
-		for i, s := range l {
-			mv := vc.mapState(st, mapValName(ks, s, i), mapValSort(ks, s))
-			val.C[i] = vc.defS(s, ite(present, sel(sel(mv, m.C[0]), key), zeroOf(s)), "mapv")
-			if s == SRef {
-				vc.assume(app("bvult", val.C[i], st.H["next"]))
-			}
-		}
-		vc.constrainSV(val)
+		p, v := mapGet(st, sh, m.C[0], key)
+		present = vc.def("Bool", p, "mapok")
+		val = &SV{T: vt, C: []string{vc.defS(sh.vsort, v, "mapv")}}
 	}
 	if in.CommaOk {
 		return tupleSV(in.Type(), val, &SV{T: types.Typ[types.Bool], C: []string{present}})
@@ -135,33 +139,24 @@ func (vc *VC) mapUpdate(f *Frame, n *Node, in *ssa.MapUpdate) {
 	st := n.St
 	m := f.get(in.Map, n)
 	vc.nilCheck(f, n, in, m)
-	ks, ok := mapKeySort(in.Map.Type())
-	if !ok {
-		vc.note("map with non-scalar key " + in.Map.Type().String() + ": updates are forgotten")
+	sh := shapeOf(in.Map.Type())
+	if !sh.ok {
+		vc.note("map of shape " + in.Map.Type().String() + " is opaque: updates are forgotten")
 		return
 	}
 	key := f.get(in.Key, n).C[0]
 	val := f.get(in.Value, n)
-	dn := mapDomName(ks)
-	dom := vc.mapState(st, dn, mapDomSort(ks))
-	st.H[dn] = vc.def(mapDomSort(ks), sto(dom, m.C[0], sto(sel(dom, m.C[0]), key, "true")), dn)
-	l := layout(in.Value.Type())
-	for i, s := range l {
-		vn := mapValName(ks, s, i)
-		mv := vc.mapState(st, vn, mapValSort(ks, s))
-		st.H[vn] = vc.def(mapValSort(ks, s), sto(mv, m.C[0], sto(sel(mv, m.C[0]), key, val.C[i])), vn)
-	}
+	st.H[sh.dom] = vc.def(stateSorts[sh.dom], sto2(st.H[sh.dom], m.C[0], key, "true"), sh.dom)
+	st.H[sh.val] = vc.def(stateSorts[sh.val], sto2(st.H[sh.val], m.C[0], key, val.C[0]), sh.val)
 }
 
 func (vc *VC) mapDelete(f *Frame, n *Node, m, k *SV) {
 	st := n.St
-	ks, ok := mapKeySort(m.T)
-	if !ok {
+	sh := shapeOf(m.T)
+	if !sh.ok {
 		return
 	}
-	dn := mapDomName(ks)
-	dom := vc.mapState(st, dn, mapDomSort(ks))
-	st.H[dn] = vc.def(mapDomSort(ks), sto(dom, m.C[0], sto(sel(dom, m.C[0]), k.C[0], "false")), dn)
+	st.H[sh.dom] = vc.def(stateSorts[sh.dom], sto2(st.H[sh.dom], m.C[0], k.C[0], "false"), sh.dom)
 }
 
 func (vc *VC) mapLen(st *State, m *SV) string {
